@@ -66,6 +66,7 @@ type c14cfg struct {
 	Samples int
 	Ticks   bool // hand-driven epoch clock; operation "k" advances it by one epoch
 	Ratio   int  // with Ticks: topics expire after this many idle epochs (0: 2^40, nothing can expire)
+	Topics  int  // the box's limit of unstarted topics per sender (0: 1000)
 }
 
 func mkOp(b *msg.Box, d string) func() { return mkOpShift(b, d, 0) }
@@ -166,6 +167,9 @@ func runCtl(cfg c14cfg, choose func(step int, n int) int) (choices, enabled []in
 		b = newTickBox(h, cfg.Ratio)
 		defer boxTicks.Delete(b)
 	}
+	if cfg.Topics > 0 {
+		b.MaxInFlightTopicsBySender = cfg.Topics
+	}
 	msg.SetVerifHook(func(string) {})
 	for _, d := range cfg.Pre {
 		mkOp(b, d)()
@@ -248,6 +252,16 @@ func c14configs(e common.Env) []c14cfg {
 		}
 		th = append(th, "r:T:7:m1")
 		cfgs = append(cfgs, c14cfg{Name: fmt.Sprintf("clock, expiry 3 epochs: Send T in each of %d epochs, then recv T", k), Ticks: true, Ratio: 3, Pre: []string{"s:Z", "k"}, Threads: [][]string{th}, Limit: 4})
+	}
+	// a sender exactly AT the documented limit of unstarted topics (it has messages buffered on `lim` of them) stays within the
+	// limits: further messages on those topics are buffered and handed over like the others
+	for lim := 1; lim <= 3; lim++ {
+		var pre []string
+		for t := 0; t < lim; t++ {
+			pre = append(pre, fmt.Sprintf("r:%c:7:m0", 'T'+byte(t)))
+		}
+		cfgs = append(cfgs, c14cfg{Name: fmt.Sprintf("topic limit %d, sender 7 holds %d unstarted topics; recv m1,m2 on T || Send T || recv y1 on T", lim, lim), Topics: lim, Pre: pre,
+			Threads: [][]string{{"r:T:7:m1", "r:T:7:m2"}, {"s:T"}, {"r:T:8:y1"}}, Limit: min(L, 4000), Samples: min(S, 400)})
 	}
 	return cfgs
 }
